@@ -1001,7 +1001,7 @@ def rand_request(rnd, shape, cache):
                 'payload': num(1) if act == 'change' else NULL}
     a = rnd.choice(list(shape[m]))
     acc = shape[m][a]
-    name = acc['wire'] if acc['wire'] and rnd.random() < 0.93 else rnd.choice([a, 'nope', (acc.get('cls') or {}).get('wire', a)])
+    name = acc['wire'] if acc['wire'] and rnd.random() < 0.93 else rnd.choice([a, 'nope', (acc.get('cls') or {}).get('wire') or a])
     q = rnd.random()
     if acc['kind'] == 'param':
         act = 'read' if q < 0.12 else 'do' if q < 0.16 else 'change'
